@@ -229,6 +229,7 @@ structure ServerView where
 inductive ServerErr
   | auth | scopes | log | cert | key
   | port (field : Nat)      -- 0 webServer.port, 1 bindPort, 2 kcpBindPort, 3 quicBindPort, 4 vhostHTTPPort, 5 vhostHTTPSPort, 6 tcpMuxHTTPConnectPort
+  | heartbeat | protocol    -- ValidateClientCommonConfig only
   deriving DecidableEq, Repr
 
 def authMethods : List Str := [[116, 111, 107, 101, 110], [111, 105, 100, 99]]                       -- token, oidc
@@ -252,6 +253,59 @@ def validateServer (c : ServerView) : List ServerErr :=
   validateWebServer c.webTLS c.webPort ++
   portErr c.bindPort 1 ++ portErr c.kcpBindPort 2 ++ portErr c.quicBindPort 3 ++
   portErr c.vhostHTTPPort 4 ++ portErr c.vhostHTTPSPort 5 ++ portErr c.tcpmuxPort 6
+
+/-! ## the common validators as independent blocks
+
+  `validateWebServerConfig` (pkg/config/v1/validation/common.go) is used by `ValidateServerConfig` (dashboard of
+  frps) and by `ValidateClientCommonConfig` (admin API of frpc).  It has two blocks: the certificate pair of
+  `webServer.tls` when that section is present, and `ValidatePort(webServer.port)` — the second is judged
+  whatever the first contains.  Each block below is a function of its own fields only. -/
+
+/-- the `if c.TLS != nil { … }` block of `validateWebServerConfig` -/
+def webTLSBlock (tls : Option (Str × Str)) : List ServerErr :=
+  match tls with
+  | some (cert, key) => if cert = [] then [.cert] else if key = [] then [.key] else []
+  | none => []
+
+/-- `return ValidatePort(c.Port, "webServer.port")` -/
+def webPortBlock (port : Int) : List ServerErr := portErr port 0
+
+def authBlock (m : Str) : List ServerErr := if authMethods.contains m then [] else [.auth]
+def scopesBlock (s : List Str) : List ServerErr := if s.all (authScopes.contains ·) then [] else [.scopes]
+def logBlock (l : Str) : List ServerErr := if logLevels.contains l then [] else [.log]
+
+/-- the fields `ValidateClientCommonConfig` reads for its errors (feature gates and include directories left
+    out: generated definitions have no virtual network address and no includes; the three
+    `transport.tls.*File is invalid when transport.tls.enable is false` findings are warnings, not errors) -/
+structure ClientCommonView where
+  authMethod : Str
+  scopes : List Str
+  logLevel : Str
+  webTLS : Option (Str × Str)
+  webPort : Int
+  hbTimeout : Int
+  hbInterval : Int
+  protocol : Str
+
+def sWebsocket : Str := [119, 101, 98, 115, 111, 99, 107, 101, 116]
+def sWss : Str := [119, 115, 115]
+/-- `SupportedTransportProtocols` -/
+def transportProtocols : List Str := [sTcp, sKcp, sQuic, sWebsocket, sWss]
+
+/-- `if c.Transport.HeartbeatTimeout > 0 && c.Transport.HeartbeatInterval > 0 { if timeout < interval … }` -/
+def heartbeatBlock (timeout interval : Int) : List ServerErr :=
+  if 0 < timeout && 0 < interval && decide (timeout < interval) then [.heartbeat] else []
+
+def protocolBlock (p : Str) : List ServerErr := if transportProtocols.contains p then [] else [.protocol]
+
+/-- `ValidateClientCommonConfig`: every failing check, in the order they are appended -/
+def validateClientCommon (c : ClientCommonView) : List ServerErr :=
+  (if authMethods.contains c.authMethod then [] else [.auth]) ++
+  (if c.scopes.all (authScopes.contains ·) then [] else [.scopes]) ++
+  (if logLevels.contains c.logLevel then [] else [.log]) ++
+  validateWebServer c.webTLS c.webPort ++
+  (if 0 < c.hbTimeout && 0 < c.hbInterval && decide (c.hbTimeout < c.hbInterval) then [.heartbeat] else []) ++
+  (if transportProtocols.contains c.protocol then [] else [.protocol])
 
 end Validate
 end Frp
